@@ -9,7 +9,7 @@ import itertools, math, contextlib
 from fractions import Fraction
 import numpy as np
 from . import common
-from .c12 import checked, _desc
+from .c12 import checked, _desc, reuse_check, _snap, _same, _shares
 
 THEOREM_FILES = ['NumqiProps/C17.lean']
 GREP_FILES = ['NumqiProofs/DickeReduction.lean']
@@ -599,9 +599,59 @@ def corpus_replay(ctx):
                 ctx.probe_ok(('corpus', tag, dims, e['keep_type']))
 
 
+def probe_reuse(ctx):
+    """input class "buffer reuse across calls" (harness/c12.py `reuse_check`): two different inputs of the same size; the first result must
+    survive the second call, share no memory with the second result, and overwriting it must not poison later calls.  Functions: partial_trace,
+    get_dicke_klist, get_dicke_basis, Dicke, get_partial_trace_ABk_to_AB_index (list and tensor form), get_qubit_dicke_partial_trace,
+    partial_trace_ABk_to_AB (numpy, torch), PureBosonicExt.forward on two interleaved objects of the same size"""
+    import numqi, torch
+    D = numqi.dicke
+    r = np.random.default_rng(2468)
+    for dims, keep in (((2, 2), (0,)), ((2, 3), (1,)), ((2, 2, 2), (0, 2)), ((3, 2), ())):
+        n = int(np.prod(dims))
+        A = r.normal(size=(n, n)) + 1j * r.normal(size=(n, n)); B = r.normal(size=(n, n)) + 1j * r.normal(size=(n, n))
+        reuse_check(ctx, f'partial_trace[{dims},{keep}]', lambda x: numqi.utils.partial_trace(x, dims, set(keep)), (A,), (B,))
+    # (2,3) and (5,2) have the same number of Dicke vectors (6): tables / lists of the same size for different inputs
+    for a, b in (((2, 3), (5, 2)), ((2, 2), (2, 2 + 0)), ((3, 2), (1, 4))):
+        if a == b:
+            continue
+        d = dict(A=f'(n,d)={a}', B=f'(n,d)={b}')
+        reuse_check(ctx, 'get_dicke_klist', lambda nd: [list(k) for k in D.get_dicke_klist(*nd)], (a,), (b,), describe=d)
+        reuse_check(ctx, 'get_partial_trace_ABk_to_AB_index', lambda nd: [[np.asarray(y) for y in x] for x in D.get_partial_trace_ABk_to_AB_index(*nd)], (a,), (b,), describe=d)
+        reuse_check(ctx, 'get_partial_trace_ABk_to_AB_index[return_tensor]', lambda nd: D.get_partial_trace_ABk_to_AB_index(*nd, return_tensor=True), (a,), (b,), describe=d)
+        reuse_check(ctx, 'get_dicke_basis', lambda nd: D.get_dicke_basis(*nd), (a,), (b,), describe=d)
+    reuse_check(ctx, 'Dicke', lambda k: D.Dicke(*k), ((2, 0, 1),), ((1, 1, 1),), describe=dict(A='klist (2,0,1)', B='klist (1,1,1)'))
+    reuse_check(ctx, 'get_qubit_dicke_partial_trace', lambda n: list(D.get_qubit_dicke_partial_trace(n)), (4,), (5,), describe=dict(A='n=4', B='n=5'))
+    for dimA, dimB, k in ((2, 2, 2), (2, 3, 2)):
+        tab = D.get_partial_trace_ABk_to_AB_index(k, dimB); L = D.get_dicke_number(k, dimB)
+        pA = r.normal(size=(dimA, L)) + 1j * r.normal(size=(dimA, L)); pB = r.normal(size=(dimA, L)) + 1j * r.normal(size=(dimA, L))
+        reuse_check(ctx, f'partial_trace_ABk_to_AB[{dimA},{dimB},{k}]', lambda x: D.partial_trace_ABk_to_AB(x, tab), (pA,), (pB,))
+        ttab = [[torch.tensor(np.asarray(y)) for y in x] for x in tab]
+        reuse_check(ctx, f'partial_trace_ABk_to_AB[torch][{dimA},{dimB},{k}]', lambda x: D.partial_trace_ABk_to_AB(x, ttab), (torch.tensor(pA),), (torch.tensor(pB),))
+        # two stateful objects of the same size, interleaved forward calls
+        hist = dict(op='PureBosonicExt.forward', history=['m1()', 'm2()', 'm1.dm_torch'], dimA=dimA, dimB=dimB, k=k)
+        try:
+            torch.manual_seed(1); m1 = numqi.entangle.PureBosonicExt(dimA, dimB, k); m2 = numqi.entangle.PureBosonicExt(dimA, dimB, k)
+            for m_ in (m1, m2):
+                m_.set_dm_target(np.eye(dimA * dimB) / (dimA * dimB))
+            with torch.no_grad():
+                m1(); d1 = m1.dm_torch; c1 = d1.clone()
+                m2(); d2 = m2.dm_torch
+                ok = torch.equal(d1, c1) and not _shares(d1, d2) and not torch.equal(d1, d2)
+                m1(); again = torch.equal(m1.dm_torch, c1)
+        except Exception as e:
+            ctx.fail('PureBosonicExt.forward:reuse-check-raises', f'{type(e).__name__}: {e}', hist); continue
+        if not ok or not again:
+            ctx.fail('PureBosonicExt.forward:result-overwritten-by-next-call', 'the reduced state stored by one PureBosonicExt object changed (or shares memory) after the forward pass of '
+                     'another object of the same size', hist)
+        else:
+            ctx.probe_ok(('reuse', 'PureBosonicExt', dimA, dimB, k)); ctx.count('reuse-check')
+
+
 def probe(ctx):
     import numqi, torch
     corpus_replay(ctx)
+    probe_reuse(ctx)
     rng = ctx.rng
     nrng = np.random.default_rng(ctx.np_seed + 2)
     # (a) partial trace = explicit contraction, trace preserved, two steps = one step
